@@ -486,6 +486,8 @@ type e1func struct {
 	loopAll   map[*ast.RangeStmt][]*Term // all(xs, F) facts established when the range loop is exhausted
 	brDepth   int
 	subCond   map[types.Object]subCond
+	boolDef   map[types.Object]ast.Expr // boolean locals assigned exactly once: their defining condition
+	noInlineLeaf int
 	forAll    map[*ast.ForStmt][]*Term // the same for canonical index loops
 }
 
@@ -688,6 +690,15 @@ func (f *e1func) prepare() {
 		}
 		if f.pureExpr(defExpr[o]) {
 			inl[o] = defExpr[o]
+		}
+	}
+	f.boolDef = map[types.Object]ast.Expr{}
+	for o, n := range assigns {
+		if n == 1 && !addrTaken[o] && defExpr[o] != nil && inl[o] == nil && isBoolType(o.Type()) {
+			switch unparen(defExpr[o]).(type) {
+			case *ast.BinaryExpr, *ast.UnaryExpr:
+				f.boolDef[o] = defExpr[o]
+			}
 		}
 	}
 	f.tb = &termBuilder{info: f.info, inl: inl, fset: f.eng.c.P.Fset}
@@ -2119,6 +2130,28 @@ func (f *e1func) branchExpr(st *fstate, cond ast.Expr, val bool) []*fstate {
 	if id, ok := cond.(*ast.Ident); ok {
 		if o := f.info.Uses[id]; o != nil {
 			// a boolean parameter of an interpreted helper: the condition is the caller's argument expression
+			if def, ok := f.boolDef[o]; ok && f.brDepth < 4 {
+				// v := <condition> (assigned once): v is true exactly when the condition was, provided what it reads is unchanged
+				vt := &Term{K: "var", S: o.Name(), Obj: o}
+				if d := f.defOf(st, vt); d != nil && len(d.A) == 2 {
+					f.brDepth++
+					f.noInlineLeaf++
+					out := f.branchExpr(st, def, val)
+					f.noInlineLeaf--
+					f.brDepth--
+					var res []*fstate
+					for _, s2 := range out {
+						vf := fact("false", vt)
+						if val {
+							vf = fact("true", vt)
+						}
+						if ns := s2.with(vf); ns != nil {
+							res = append(res, ns)
+						}
+					}
+					return res
+				}
+			}
 			if sc, ok := f.subCond[o]; ok && f.brDepth < 4 {
 				f.brDepth++
 				out := sc.f.branchExpr(st, sc.e, val)
@@ -2171,7 +2204,11 @@ func (f *e1func) branchExpr(st *fstate, cond ast.Expr, val bool) []*fstate {
 		}
 	}
 	var out []*fstate
-	for _, st := range f.inlineLeaf(st, cond) {
+	leafStates := []*fstate{st}
+	if f.noInlineLeaf == 0 {
+		leafStates = f.inlineLeaf(st, cond)
+	}
+	for _, st := range leafStates {
 		fs, feasible := f.leaf(st, cond, val)
 		if !feasible {
 			continue
